@@ -14,6 +14,7 @@ import (
 	"io"
 	"os"
 	"regexp"
+	"regexp/syntax"
 	"sort"
 	"strings"
 	"unicode/utf8"
@@ -249,7 +250,22 @@ func compile(patterns []string, mode Mode) (*regexp.Regexp, error) {
 						if len(pat) > 1 && (pat[1] == '.' || pat[1] == '=' || pat[1] == ':') {
 							if j := strings.Index(pat[2:], pat[1:2]+"]"); j != -1 {
 								w = j + 4
-								b.WriteString(pat[:w])
+								if pat[1] == ':' {
+									b.WriteString(pat[:w])
+									break
+								}
+								// a collating symbol or an equivalence
+								// class: a single character stands for
+								// itself, anything else is not supported
+								c, cw := utf8.DecodeRuneInString(pat[2 : 2+j])
+								if cw != j || c == utf8.RuneError {
+									return nil, &syntax.Error{Code: syntax.ErrInvalidCharRange, Expr: pat[:w]}
+								}
+								switch c {
+								case '!', '-', '[', ']', '^', '\\':
+									b.WriteByte('\\')
+								}
+								b.WriteRune(c)
 								break
 							}
 						}
